@@ -233,6 +233,11 @@ func (s *FileStorage) Lock(ctx context.Context, name string) error {
 				}
 			} else if err2 != nil {
 				return fmt.Errorf("decoding lockfile contents: %w", err2)
+			} else {
+				// the lockfile has content again, so its writer is alive; only
+				// consecutive empty reads suggest a crashed writer (otherwise a
+				// long-held lock on a slow disk is eventually treated as stale)
+				emptyCount = 0
 			}
 		}
 
